@@ -51,7 +51,7 @@ LEMMA SetDirectInd == ASSUME IndInv, NEW e \in Execs, NEW v \in BOOLEAN, SetDire
 LEMMA SpawnInd == ASSUME IndInv, NEW p \in Execs, NEW c \in Execs, Spawn(p, c) PROVE IndInv'
   BY ConstAssump DEF IndInv, TypeOK, Linked, Spawn, Live, Running, CtxVal, ValueOf, Value
 
-LEMMA ArithInd == ASSUME IndInv, NEW e \in Execs, NEW what \in {"array", "negative"}, NEW a \in BOOLEAN, Arith(e, what, a)
+LEMMA ArithInd == ASSUME IndInv, NEW e \in Execs, NEW what \in ArithKinds, NEW a \in BOOLEAN, Arith(e, what, a)
                   PROVE IndInv'
   BY ConstAssump DEF IndInv, TypeOK, Linked, Arith, Live, Running, CtxVal, ValueOf
 
@@ -99,7 +99,7 @@ LEMMA RestoredNext == IndInv /\ [Next]_vars => RestoredStep \/ UNCHANGED vars
     BY <1>5 DEF SetDirect, RestoredStep
   <1>6. ASSUME NEW p \in Execs, NEW c \in Execs, Spawn(p, c) PROVE RestoredStep
     BY <1>6 DEF Spawn, RestoredStep
-  <1>7. ASSUME NEW e \in Execs, NEW what \in {"array", "negative"}, NEW a \in BOOLEAN, Arith(e, what, a) PROVE RestoredStep
+  <1>7. ASSUME NEW e \in Execs, NEW what \in ArithKinds, NEW a \in BOOLEAN, Arith(e, what, a) PROVE RestoredStep
     BY <1>7 DEF Arith, RestoredStep
   <1>8. ASSUME NEW e \in Execs, Finish(e) PROVE RestoredStep
     BY <1>8 DEF Finish, RestoredStep
@@ -131,7 +131,7 @@ LEMMA CrossNext == IndInv /\ [Next]_vars => CrossStep \/ UNCHANGED vars
     BY <1>5 DEF IndInv, TypeOK, SetDirect, CrossStep
   <1>6. ASSUME NEW p \in Execs, NEW c \in Execs, Spawn(p, c) PROVE CrossStep
     BY <1>6 DEF IndInv, TypeOK, Spawn, CrossStep
-  <1>7. ASSUME NEW e \in Execs, NEW what \in {"array", "negative"}, NEW a \in BOOLEAN, Arith(e, what, a) PROVE CrossStep
+  <1>7. ASSUME NEW e \in Execs, NEW what \in ArithKinds, NEW a \in BOOLEAN, Arith(e, what, a) PROVE CrossStep
     BY <1>7 DEF Arith, CrossStep
   <1>8. ASSUME NEW e \in Execs, Finish(e) PROVE CrossStep
     BY <1>8 DEF Finish, CrossStep
